@@ -586,7 +586,8 @@ def subspace_cases(q, seed):
 
 
 def run(ctx):
-    q, seed = ctx.quick, ctx.seed
+    # the full exploration takes ~10 s on 16 cores, so the quick tier runs the thorough bounds as well
+    q, seed = False, ctx.seed
     only = getattr(ctx, "only", None)
 
     def want(name):
